@@ -11,6 +11,7 @@ import (
 	"os"
 	"strconv"
 	"strings"
+	"time"
 
 	"github.com/bnb-chain/tss-lib/v2/common"
 
@@ -98,15 +99,16 @@ func explore(sc scenario, bound, maxExec int) result {
 	res := result{Scenario: sc.Name, Bound: bound, Outcomes: map[string]int{}}
 	seen := map[string]bool{}
 	type ret struct {
-		returned  bool
-		primes    []*common.GermainSafePrime
-		err       error
+		returned      bool
+		primes        []*common.GermainSafePrime
+		err           error
 		aliveAtReturn int
-		cancelled bool
-		readerErr bool
+		cancelled     bool
+		readerErr     bool
 	}
 	var cur *ret
-	ex := &vsched.Explorer{Bound: bound, MaxSteps: 1200, MaxExec: maxExec}
+	deadlocks := 0
+	ex := &vsched.Explorer{Bound: bound, MaxSteps: 1200, MaxExec: maxExec, Deadline: time.Now().Add(25 * time.Minute)}
 	ex.Body = func() {
 		cur = &ret{}
 		my := cur
@@ -144,10 +146,12 @@ func explore(sc scenario, bound, maxExec int) result {
 		}
 		if s.Aborted == "horizon exceeded" {
 			add("livelock/does-not-stop", "the call (or one of its goroutines) keeps running without end: "+fmt.Sprint(s.Trace[len(s.Trace)-6:]))
+			ex.Stop = true // the goroutines of such an execution stay parked for good: one counterexample is enough
 			return
 		}
 		if s.Aborted != "" {
 			add("infrastructure/"+s.Aborted, s.Aborted)
+			ex.Stop = true
 			return
 		}
 		if s.Deadlock {
@@ -156,6 +160,10 @@ func explore(sc scenario, bound, maxExec int) result {
 				where = "after-return"
 			}
 			add("deadlock/"+where, "the generator call never completes: "+s.Trace[len(s.Trace)-1])
+			deadlocks++
+			if deadlocks >= 3 { // parked goroutines are never reclaimed: stop after a few counterexamples
+				ex.Stop = true
+			}
 			return
 		}
 		for _, v := range s.Violations {
